@@ -478,6 +478,19 @@ func raceLogTail() string {
 }
 
 func (e C20) execRace(p *C20Plan, c *core.Ctx) *core.Verdict {
+	// the race stage is free-running: a replay re-runs the workload up to 20 times
+	attempts := 1
+	if c.Tier == "replay" || c.Tier == "shrink" {
+		attempts = 20
+	}
+	var v *core.Verdict
+	for i := 0; i < attempts && v == nil; i++ {
+		v = e.execRaceOnce(p, c)
+	}
+	return v
+}
+
+func (e C20) execRaceOnce(p *C20Plan, c *core.Ctx) *core.Verdict {
 	if !RaceEnabled || raceLogSize() < 0 {
 		c.Stats.Inc("probe.race_detector_missing")
 		return core.Fail("harness", "race stage needs the -race build and AGESIM_RACE_LOG (use ./check C20 ...)")
